@@ -172,16 +172,19 @@ def collapse (o : ROps K R) (arr : Array K) (q : Nat) (res : Bool) (norm : R) : 
     if i.testBit q != res then st.setIfInBounds i o.kzero
     else st.setIfInBounds i (o.divR st[i]! norm)) arr
 
-/-- `QasmSimulator::measure`, with the random draw `r` an explicit input. -/
-def measure (o : ROps K R) (st : State K R) (q : Nat) (r : R) : Except SimErr (State K R × Nat) := do
-  ensureActive st q
+/-- the body of `QasmSimulator::measure` after the activity check; `r` is the uniform draw -/
+def measureCore (o : ROps K R) (st : State K R) (q : Nat) (r : R) : State K R × Bool :=
   let p1 := mass o st.amps q true
   let res := o.lt r p1
   let norm := o.sqrt (if res then p1 else o.sub o.one p1)
-  let amps := collapse o st.amps q res norm
-  let st := ({ st with amps := amps }).log (.measure q)
-  let st := if q < st.measured.size then { st with measured := st.measured.setIfInBounds q true } else st
-  pure (st, if res then 1 else 0)
+  let st1 := ({ st with amps := collapse o st.amps q res norm }).log (.measure q)
+  ({ st1 with measured := st1.measured.setIfInBounds q true }, res)
+
+/-- `QasmSimulator::measure`, with the random draw `r` an explicit input. -/
+def measure (o : ROps K R) (st : State K R) (q : Nat) (r : R) : Except SimErr (State K R × Nat) := do
+  ensureActive st q
+  let (st', res) := measureCore o st q r
+  pure (st', if res then 1 else 0)
 
 /-- move the `bit q = 1` half into the `bit q = 0` half and zero it -/
 def swapDown (o : ROps K R) (arr : Array K) (q : Nat) : Array K :=
@@ -189,18 +192,49 @@ def swapDown (o : ROps K R) (arr : Array K) (q : Nat) : Array K :=
     if i.testBit q then (st.setIfInBounds (i ^^^ (1 <<< q)) st[i]!).setIfInBounds i o.kzero
     else st) arr
 
-/-- `QasmSimulator::reset` (after the C04 repair): sample the target like a measurement with
-    the explicit draw `r`, collapse, and if the outcome was 1 move the amplitude into the
-    `|0>` half.  No measurement flag is set and the log line is `reset q[i];`. -/
-def reset (o : ROps K R) (st : State K R) (q : Nat) (r : R) : Except SimErr (State K R × Nat) := do
-  if q ≥ st.n then throw (.outOfRange q)
-  let st := if q < st.measured.size then { st with measured := st.measured.setIfInBounds q false } else st
-  let p1 := mass o st.amps q true
+/-- the body of `QasmSimulator::reset` after the range check (C04 repair): sample the target
+    like a measurement with the explicit draw `r`, collapse, and if the outcome was 1 move the
+    amplitude into the `|0>` half.  The flag is cleared and the log line is `reset q[i];`. -/
+def resetCore (o : ROps K R) (st : State K R) (q : Nat) (r : R) : State K R × Bool :=
+  let st0 := { st with measured := st.measured.setIfInBounds q false }
+  let p1 := mass o st0.amps q true
   let res := o.lt r p1
   let norm := o.sqrt (if res then p1 else o.sub o.one p1)
-  let amps := collapse o st.amps q res norm
+  let amps := collapse o st0.amps q res norm
   let amps := if res then swapDown o amps q else amps
-  pure (({ st with amps := amps }).log (.reset q), if res then 1 else 0)
+  (({ st0 with amps := amps }).log (.reset q), res)
+
+/-- `QasmSimulator::reset` -/
+def reset (o : ROps K R) (st : State K R) (q : Nat) (r : R) : Except SimErr (State K R × Nat) := do
+  if q ≥ st.n then throw (.outOfRange q)
+  let (st', res) := resetCore o st q r
+  pure (st', if res then 1 else 0)
+
+end
+end BlochVerif.Sim
+
+namespace BlochVerif.Sim
+section
+variable {K R : Type} [Inhabited K] [Add K] [Mul K]
+
+/-- one operation of a simulator history; measurement and reset carry their uniform draw -/
+inductive HOp (R : Type) where
+  | alloc
+  | gate (op : QOp R)
+  | cx (c t : Nat)
+  | measure (q : Nat) (r : R)
+  | reset (q : Nat) (r : R)
+
+/-- run one operation; an operation the simulator refuses (out of range, measured qubit,
+    `cx q q`) throws before mutating anything, so the state is unchanged -/
+def stepOp (o : ROps K R) (st : State K R) : HOp R → State K R
+  | .alloc => (allocate o st).1
+  | .gate op => match gate1 o st op with | .ok s => s | .error _ => st
+  | .cx c t => match cx st c t with | .ok s => s | .error _ => st
+  | .measure q r => match measure o st q r with | .ok (s, _) => s | .error _ => st
+  | .reset q r => match reset o st q r with | .ok (s, _) => s | .error _ => st
+
+def runOps (o : ROps K R) (st : State K R) (h : List (HOp R)) : State K R := h.foldl (stepOp o) st
 
 end
 end BlochVerif.Sim
